@@ -148,7 +148,7 @@ impl TableLookup {
             old(self).active_lookups@.contains_key(*trans_id) ==> yields(final(tr).ev) == yields(old(tr).ev) + msg.values@, // @C03.yields_exactly_the_values_of_an_outstanding_query
             // C03: the token is recorded under the responder's (id, address), replacing any older one
             old(self).active_lookups@.contains_key(*trans_id) ==> final(self).announce_tokens@ == (if msg.token is Some { old(self).announce_tokens@.insert(node.handle, msg.token->0) } else { old(self).announce_tokens@ }), // @C03.latest_token_recorded_under_responder
-            no_replies(old(tr).ev, final(tr).ev), // @C05.responses_never_answered
+            no_replies(old(tr).ev, final(tr).ev), only_requests_and_yields(old(tr).ev, final(tr).ev), // @C05.responses_never_answered
             no_new_refresh(*old(timer), *final(timer)),
             final(self).will_announce == old(self).will_announce, final(self).target_id == old(self).target_id, final(self).this_node_id == old(self).this_node_id,
     {
@@ -206,7 +206,7 @@ impl TableLookup {
         proof { lemma_yields_quiet(ev0, ev1); }
         for value in it: values
             invariant it.snapshot@.remaining() == vals, 0 <= it.index@ <= vals.len(),
-                yields(tr.ev) == yields(ev0) + vals.take(it.index@ as int), no_replies(ev0, tr.ev),
+                yields(tr.ev) == yields(ev0) + vals.take(it.index@ as int), no_replies(ev0, tr.ev), only_requests_and_yields(ev0, tr.ev),
                 self.announce_tokens == ann1, self.will_announce == old(self).will_announce, self.target_id == old(self).target_id, self.this_node_id == old(self).this_node_id,
                 *timer == tm1,
         {
@@ -221,6 +221,37 @@ impl TableLookup {
             vx_ret
         }
         proof { assert(vals.take(vals.len() as int) =~= vals); }
+
+        self.current_lookup_status()
+    }
+//@end
+
+//@begin fn src/action/lookup.rs impl:TableLookup recv_timeout rules=R-deasync props=C03,C05
+    pub fn recv_timeout(
+        &mut self,
+        trans_id: &TransactionID,
+        socket: &Socket,
+        timer: &mut Timer<ScheduledTaskCheck>,
+        Tracked(tr): Tracked<&mut Trace>,
+    ) -> (res: ActionStatus)
+        requires old(timer).wf(),
+        ensures
+            !old(self).active_lookups@.contains_key(*trans_id) ==> final(tr).ev == old(tr).ev && *final(timer) == *old(timer) && final(self).active_lookups@ == old(self).active_lookups@, // @C03.unknown_timeout_changes_nothing
+            only_requests_and_yields(old(tr).ev, final(tr).ev), no_yield(old(tr).ev, final(tr).ev), // @C03.timeouts_yield_nothing
+            no_new_refresh(*old(timer), *final(timer)),
+            final(self).announce_tokens == old(self).announce_tokens, final(self).will_announce == old(self).will_announce,
+    {
+        broadcast use vstd::std_specs::hash::group_hash_axioms, tid_key_model;
+        if self.active_lookups.remove(trans_id).is_none() {
+            return self.current_lookup_status();
+        }
+
+        if !self.in_endgame {
+            // If there are not more active lookups, start the endgame
+            if self.active_lookups.is_empty() {
+                self.start_endgame_round(socket, timer, Tracked(tr));
+            }
+        }
 
         self.current_lookup_status()
     }
